@@ -613,11 +613,12 @@ def check_change_state_defaults(ctx, fx):
     n = 0
     for f in fs:
         found = {}
+        inits_f = C.single_inits(f)
         for b in f["blocks"]:
             t = b["term"]
             if t.get("kind") != "IfStmt" or t.get("cond") is None:
                 continue
-            txt = X.show(t["cond"])
+            txt = X.show(C.subst_inits(t["cond"], inits_f))      # named groups of states (`const bool leaving_... = ...`) read as their definition
             m = re.search(r"!\s*(?:this->)?result\.(\w+)", txt)
             if not m:
                 continue
